@@ -69,7 +69,7 @@ def run_path(spec, fnode, script):
     if a not in declared:
       raise OutsideSubset(f'{spec.target}: parameter {a!r} of the real function has no sort in the contract')
   for p, s in spec.params:
-    if p not in argnames:
+    if p not in argnames and p != getattr(spec, 'vararg', None):
       raise OutsideSubset(f'{spec.target}: contract parameter {p!r} is not a parameter of the real function')
   old_env = Env(None)
   for p, s in list(spec.params) + list(spec.free):
@@ -86,6 +86,10 @@ def run_path(spec, fnode, script):
     ex.store['$out'] = SV(ys, ys.z3().mk(0, z3.K(z3.IntSort(), spec.yields.const('dy'))))
     env.set('_out', Box('$out'))
   ex.init_heap(env, old_env) if hasattr(ex, 'init_heap') else None
+  for p_, s_ in list(spec.params) + list(spec.free):
+    v_ = old_env.lookup(p_)
+    if isinstance(v_, SV):
+      ex.assume_allocated(s_, v_.t)  # objects passed in are live
   for g in eval_clauses(ex, spec.requires, env, {}):
     ex.assume(g)
   if spec.decreases:
@@ -117,6 +121,11 @@ def run_path(spec, fnode, script):
         ex.oblige(z3.Not(c), f'raises-if[{exn}]')
       res = outcome[1]
       penv = Env(env)
+      # in a postcondition a parameter name denotes its ENTRY value (the body may rebind it);
+      # in-place mutated containers (assigns) denote their final content
+      for p_, _s in list(spec.params) + list(spec.free):
+        if p_ not in spec.assigns:
+          penv.set(p_, old_env.lookup(p_))
       if spec.returns is not None:
         res = ex.coerce(res, spec.returns)
       elif ex.deref(res) is not NONEV:
